@@ -32,7 +32,7 @@ def build():
 def run_demo(src):
     exe = "/tmp/val/demo_bin"
     if os.path.exists(os.path.join(src, "demo.sh")):
-        r = sh("WT=%s BUILD=%s sh %s/demo.sh" % (WT, BUILD, src), timeout=600)
+        r = sh("WT=%s BUILD=%s sh %s/demo.sh %s %s" % (WT, BUILD, src, WT, exe), timeout=600)
         return r.returncode, r.stdout[-2000:]
     r = sh("g++ -std=c++11 -O1 -w -DMUSCLE_ENABLE_ZLIB_ENCODING -DMUSCLE_NO_EXCEPTIONS -I%s %s/demo.cpp %s/libmuscle.a -lz -lpthread -o %s" % (WT, src, BUILD, exe))
     if r.returncode != 0: return -999, "demo does not compile:\n" + r.stdout[-2000:]
